@@ -355,7 +355,9 @@ fn run<T: Val>(c: &mut Cur) -> Vec<i128> {
             }
             Err(()) => out.push(2),
         }
-        na.next_instruction();
+        // what the runtime does between instructions: the account is serialised afresh for the next
+        // instruction (same state, resize_delta 0, a new 10 KiB of realloc headroom behind the data)
+        na = NativeAccount::new(na.key(), na.owner(), na.lamports(), &d, false, true, false);
     }
     out
 }
